@@ -24,7 +24,9 @@ pub fn check(v: &View, vd: &mut Verdict) {
             let d = duration(work);
             let op = v.client_ops().find(|o| o.msg == Some(id) && matches!(o.what, OpWhat::Send | OpWhat::Call));
             // cut short by the end of the actor (stop of the world at teardown etc.) - not a timeout matter
-            let cut_by_end = i.exit.is_none() && dead != u64::MAX && !cfg.is_some_and(|(t, _)| d > t as u64);
+            // (only the harness' own stop of the world, or an injected fault, ends an actor in the middle of a handler)
+            let world_stopped = dead > v.phase(Phase::Teardown) || !v.case.faults.is_empty();
+            let cut_by_end = i.exit.is_none() && dead != u64::MAX && world_stopped && !cfg.is_some_and(|(t, _)| d > t as u64);
             match cfg {
                 Some((t, fail)) if d > t as u64 => {
                     abandoned = true;
